@@ -34,15 +34,21 @@ def base_tree(prior):
             o = E("d/s/sub/inner.~4~", "file", "OLD3"); o["meta"]["data"] = b"older"; fs.append(o)
     return fs
 
-def random_config(rr):
+def random_config(rr, k=None):
+    """k = index of the configuration: the first 32 enumerate every subset of {fsync, no-perms, no-timestamps, ownership} x driver,
+    the remaining dimensions are drawn at random."""
     prior = rr.choice([None, None, "empty", "older"])
-    c = {"driver": rr.choice(["parfile", "parblock"]), "workers": rr.choice([1, 2, 4, 8]), "block": rr.choice([100, 1000, 4096, 1 << 20]),
+    c = {"driver": rr.choice(["parfile", "parblock"]), "workers": rr.choice([0, 1, 2, 4, 8]), "block": rr.choice([100, 1000, 4096, 1 << 20]),
+         "verbose": rr.choice(["", "", "-v", "-vv"]),
          "noprogress": rr.random() < 0.2, "reflink": rr.choice(["auto", "never"]), "fsync": rr.random() < 0.5, "noperms": rr.random() < 0.3,
          "notimes": rr.random() < 0.3, "ownership": rr.random() < 0.4, "T": rr.random() < 0.25, "L": rr.random() < 0.2, "prior": prior,
          "tdir": False, "backup": rr.choice(["none", "none", "numbered", "auto"]),
          "spelling": rr.choice(["s", "./s", "s/"]), "umask": rr.choice([0o022, 0o077, 0])}
     if prior and rr.random() < 0.3 and not c["T"]:
         c["tdir"] = True
+    if k is not None and k < 32:
+        c["driver"] = ["parfile", "parblock"][k & 1]
+        c["fsync"], c["noperms"], c["notimes"], c["ownership"] = bool(k >> 1 & 1), bool(k >> 2 & 1), bool(k >> 3 & 1), bool(k >> 4 & 1)
     return c
 
 def scenario(c, i):
@@ -50,6 +56,8 @@ def scenario(c, i):
     if c["L"]:
         fs = [e for e in fs if not (e["k"] == "link" and e["p"][-1] == "nonexistent")]
     extra = ["--block-size", str(c["block"]), "--reflink", c["reflink"], "--backup", c["backup"]]
+    if c.get("verbose"):
+        extra.append(c["verbose"])
     for flag, opt in (("noprogress", "--no-progress"), ("fsync", "--fsync"), ("noperms", "--no-perms"), ("notimes", "--no-timestamps"), ("ownership", "--ownership")):
         if c[flag]:
             extra.append(opt)
@@ -80,7 +88,7 @@ def meta_records(o, sc, c, t0, t1):
 def run(ctx, binary, owned, n, salt):
     """owned: set of clause names (C02, C03, C06, C10, C13, C14, C15, C18) that count as violations for this property."""
     rnd = rng("combo", salt)
-    cfgs = [random_config(rnd) for _ in range(n)]
+    cfgs = [random_config(rnd, k) for k in range(n)]
     jobs = [(i, c, scenario(c, i)) for i, c in enumerate(cfgs)]
     def one(j):
         i, c, sc = j
